@@ -664,13 +664,14 @@ class AsyncBaseClientOpenTelemetry:
             span.set_attribute("query", query)
             span.set_attribute("operationName", operation_name or "")
             if variables:
+                # convert once: what is passed on holds no models any more, so
+                # _send_subscribe converting again runs no serializer twice
+                converted = self._convert_dict_to_json_serializable(variables)
                 span.set_attribute(
-                    "variables",
-                    json.dumps(
-                        self._convert_dict_to_json_serializable(variables),
-                        default=to_jsonable_python,
-                    ),
+                    "variables", json.dumps(converted, default=to_jsonable_python)
                 )
+                if converted:
+                    variables = converted
 
             await self._send_subscribe(
                 websocket=websocket,
